@@ -296,12 +296,12 @@ def sub_histories(ctx):
 
 
 # ---------------------------------------------------------------------------------------------------------
-def run_cli(settings_path, cwd, hashseed):
+def run_cli(settings_path, cwd, hashseed, extra=()):
     env = dict(os.environ)
     env["PYTHONHASHSEED"] = str(hashseed)
     env["PYTHONPATH"] = REPO + os.pathsep + env.get("PYTHONPATH", "")
     env["PYTHONWARNINGS"] = "ignore"
-    r = subprocess.run([sys.executable, "-m", "cij.cli.cij", "run", settings_path], cwd=cwd, env=env,
+    r = subprocess.run([sys.executable, "-m", "cij.cli.cij", "run", settings_path] + list(extra), cwd=cwd, env=env,
                        capture_output=True, text=True, timeout=600)
     return r
 
@@ -339,12 +339,13 @@ def collect(d, pre):
 
 
 @st.composite
-def sub_cases(draw, cwd_kind=None, hashseed=None):
+def sub_cases(draw, cwd_kind=None, hashseed=None, debug=None):
     s = draw(dataset_specs(max_nq=2, max_na=1, max_nt=2, interpolators=["lsq_poly"], ntv_range=(16, 22), min_nv=5, max_nv=6,
                            systems=[x for x in SYSTEMS if x != "triclinic"]))
     s["apply_system"] = True
     s["hashseed"] = hashseed if hashseed is not None else draw(st.sampled_from(HASHSEEDS))
     s["cwd_kind"] = cwd_kind or draw(st.sampled_from(CWD_KINDS))
+    s["debug"] = draw(st.booleans()) if debug is None else debug
     return s
 
 
@@ -373,7 +374,8 @@ def subprocess_oracle(ctx, s):
             raise PropertyViolation("C14/subprocess/no-output", "cij run wrote no output files", s)
         cwd, pre = prepare_cwd(s["cwd_kind"], s["system"])
         dirs.append(cwd)
-        r1 = run_cli(path, cwd, s["hashseed"])
+        # verbosity is a user option of `cij run`: it must not change a byte of the output files
+        r1 = run_cli(path, cwd, s["hashseed"], extra=(["--debug", "DEBUG"] if s.get("debug") else []))
         if r1.returncode != 0:
             raise PropertyViolation("C14/subprocess/cwd=%s/run-failed" % s["cwd_kind"], "cij run failed in a working directory with %s: %s" % (
                 s["cwd_kind"], r1.stderr[-300:]), s)
@@ -396,13 +398,15 @@ def sub_subprocess(ctx):
         if info is None:
             ctx.stats.skip("unusable-dataset")
             return
-        ctx.case(s, s["cwd_kind"] != "empty", classes=["cwd-" + s["cwd_kind"], "hashseed-%s" % s["hashseed"]] + (["example-akimotoite"] if s.get("example") else []))
+        ctx.case(s, s["cwd_kind"] != "empty", classes=["cwd-" + s["cwd_kind"], "hashseed-%s" % s["hashseed"], "debug-log" if s.get("debug") else "default-log"]
+                 + (["example-akimotoite"] if s.get("example") else []))
 
     # Hypothesis' first example is always the simplest one: with one example per shard every shard would run the same
     # case, so the two environment dimensions are stratified over the shards (still drawn through a strategy)
     kind = CWD_KINDS[(ctx.shard + ctx.base_seed) % len(CWD_KINDS)]
     hs = HASHSEEDS[(ctx.shard // len(CWD_KINDS) + ctx.base_seed) % len(HASHSEEDS)]
-    ctx.run_given(body, sub_cases(kind, hs), max_examples=ctx.n(16, 64), shrink=False)
+    dbg = bool((ctx.shard // 2 + ctx.base_seed) % 2)
+    ctx.run_given(body, sub_cases(kind, hs, dbg), max_examples=ctx.n(16, 64), shrink=False)
 
 
 # ---------------------------------------------------------------------------------------------------------
